@@ -104,6 +104,10 @@ func leakSig(sigs []string) string {
 	return strings.Join(out, "+")
 }
 
+// a goroutine that is on its way out when the call returns may finish the line it is reading (the reader
+// hands out 7 bytes per Read): a count, so the verdict does not depend on the machine's speed
+const maxReadsAfterReturn = 64
+
 // checkPipeReply applies the property-level oracle of C11 (and the error-iff part of C10) to one call.
 func checkPipeReply(r *evid.Run, pc *pipeCase, rq wproto.Req, rp wproto.Rep, cancelled string) {
 	rec := pipeReplay{Sink: pc.Sink, Fates: pc.Fates, ReadFail: pc.ReadFail, Req: rq, Class: rp.Class, Err: rp.Err, Leaked: rp.LeakSigs}
@@ -120,6 +124,14 @@ func checkPipeReply(r *evid.Run, pc *pipeCase, rq wproto.Req, rp wproto.Rep, can
 	}
 	if rp.Leaked > 0 {
 		r.Mismatch(route+":goroutines-left:"+leakSig(rp.LeakSigs), fmt.Sprintf("%s: returned %q and left %v", desc, rp.Err, rp.LeakSigs), rec)
+	}
+	if rp.Unsettled {
+		// goroutines of the call were still moving 20 s after it returned: the machine is overloaded or they
+		// spin; either way this run cannot say that they end
+		r.Broken("%s: the goroutines of the call had neither ended nor come to rest 20 s after it returned", desc)
+	}
+	if rp.ReadsAfter > maxReadsAfterReturn {
+		r.Mismatch(route+":reader-still-read-after-return", fmt.Sprintf("%s: returned %q, and afterwards the input reader was read %d more times: a goroutine of the call went on consuming the input", desc, rp.Err, rp.ReadsAfter), rec)
 	}
 	faulty := isFaulty(pc.Fates, pc.ReadFail)
 	if rq.WFault != nil {
@@ -280,6 +292,25 @@ func checkC11(r *evid.Run) {
 				}
 			}
 		}
+	}
+	// one very long root block behind a trickling reader, cancelled early: the splitter must stop reading
+	// at once (it polls the context at every line), not at the next root line
+	for _, sink := range []string{"text", "walk", "verify"} {
+		var sb strings.Builder
+		sb.WriteString("- r1\n")
+		for i := 0; i < 4000; i++ {
+			sb.WriteString("  - c\n")
+		}
+		pc := buildPipeCase(sink, []string{"ok"}, 2)
+		rq := pc.Req
+		rq.Doc = sb.String()
+		pc.Blocks = []string{rq.Doc}
+		o := 40
+		rq.CancelAt = &o
+		rq.Yield = 300 // microseconds per 7-byte read: the whole input would take more than a second
+		rq.Record = false
+		rq.Procs = 4
+		jobs = append(jobs, job{pc, rq, "early", false})
 	}
 	// From-Root entry points with a cancelled context (the feeder's send)
 	for _, sink := range []string{"text", "enc", "dry", "walk", "mkdir", "verify"} {
